@@ -165,6 +165,36 @@ SYNTAX = {
 }
 
 
+# (name, text that ends the file WITHOUT a final line break, how many lines back from the last line the open construct starts)
+EOF_CASES = [("statement_without_final_newline", "last :: 1", [0]), ("unclosed_parenthesis", "last :: (1 +", [0]), ("unclosed_block", "last :: fn do\n    pr(1)", [0, 1]),
+             ("unclosed_blob", "Last :: blob {\n    a: int,", [0, 1]), ("dangling_operator", "last :: 1 +", [0]), ("unclosed_call", "start :: fn do\n    pr(1,", [0, 1])]
+
+
+def eof_case(replay, tail, back, where, shape, crlf=False):
+    pre = []
+    for j, i in enumerate(shape):
+        t = PREFIX_LINES[i]
+        if "%d" in t: t = t % j
+        pre.append(t)
+    body = "\n".join(pre) + ("\n" if pre else "") + "first :: 0\n" + tail
+    files = {"main.sy": PRE + body} if where == "main" else {"main.sy": PRE + "use lib\nstart :: fn do\n    pr(lib.first)\nend\n", "lib.sy": body}
+    efile = "main.sy" if where == "main" else "lib.sy"
+    if crlf: files[efile] = files[efile].replace("\n", "\r\n")
+    nlines = files[efile].count("\n") + 1
+    exp = [nlines - b for b in back]
+    d = tempfile.mkdtemp(prefix="c15_", dir=common.SCRATCH)
+    try:
+        for rel, text in files.items(): open(os.path.join(d, rel), "w", encoding="utf-8", newline="").write(text)
+        out = subprocess.run([replay, "errors", "main.sy", "--no-std"], cwd=d, capture_output=True, text=True, timeout=30).stdout
+    finally: shutil.rmtree(d, ignore_errors=True)
+    m = re.search(r"^ERR \w+ \{ (?:kind: .*?, )?file: (File\(\"([^\"]*)\"\)|Lib\(\"[^\"]*\"\)), span: Span \{ file_id: \d+, line_start: (\d+)", out, re.M)
+    if not m:
+        if out.startswith("OK"): return {"ok": True, "got": "accepted", "files": files}      # accepting the text is fine for C15: nothing is reported
+        return {"ok": False, "why": "no located error: " + out[:200], "files": files, "expected": (efile, exp)}
+    got_file = m.group(2) or m.group(1); got_line = int(m.group(3))
+    return {"ok": got_file.endswith(efile) and got_line in exp, "got": (got_file, got_line), "expected": (efile, exp), "files": files}
+
+
 def run(tier):
     t0 = time.time()
     from mirsym import pipeline
@@ -205,6 +235,13 @@ def run(tier):
                 if kind in SYN: del KINDS[kind]
                 if not nat["ok"]:
                     fnd.report("wrong-line:%s" % kind, "%s in %s after %d lines of preceding text%s: reported at %s, written at %s" % (kind, where, len(shape), " (CRLF)" if crlf else "", nat.get("got") or nat.get("why"), nat.get("expected")), nat["files"], cmd="sylt --no-std -o out.lua main.sy")
+    # errors located at the end of the file (truncated input): the line must be a real line of that file, the last one or the one the open construct starts on
+    for name, tail, back in EOF_CASES:
+        for where in ("main", "lib"):
+            for shape, crlf in solver_shapes(stats, 2 if tier == "quick" else 6, hash((name, where, common.seed())) & 0xffff):
+                nat = eof_case(art["replay"], tail, back, where, shape, crlf); nat_n += 1
+                if not nat["ok"]:
+                    fnd.report("wrong-line:eof:%s" % name, "%s at the end of %s after %d lines of preceding text%s: reported at %s, written at %s" % (name, where, len(shape), " (CRLF)" if crlf else "", nat.get("got") or nat.get("why"), nat.get("expected")), nat["files"], cmd="sylt --no-std -o out.lua main.sy")
     cov = {"states": max(1, tot["paths"]), "transitions": max(1, tot["queries"] + stats.queries), "traces_validated_against_impl": nat_n, "samples": samples or [{"note": "none"}],
            "error_kinds": allk + list(SYNTAX), "mir_statements": tot["steps"], "functions_encoded": ["name_resolution::resolve", "dependency::initialization_order", "typechecker::solve"],
            "bounds": {"symbolic": "line map ell: strictly increasing, otherwise arbitrary", "files": 2, "native_preceding_text_shapes_per_case": 2 if tier == "quick" else 6}, "known_findings_seen": sorted(fnd.seen_known)}
